@@ -229,3 +229,46 @@ Proof.
   rewrite lex_command; [| reflexivity | discriminate | now apply cmd_toks_ok].
   rewrite cmd_redir, <- cmd_vals. reflexivity.
 Qed.
+
+(* ---- rmcp_ping ---- *)
+Definition ping_toks (c : config) : list tok :=
+  [L "-I"; TLit (iftype_name (c_type c)); L "-H"; TLit (c_host c); L "-p"; TLit (dec (c_port c))] ++
+  match c_auth c with
+  | AuthNone => [L "-A"; L "NONE"]
+  | AuthPassword u p => [L "-U"; TDq u; L "-P"; TDq p]
+  | AuthOther => []
+  end ++ [L "session"; L "info"; L "all"].
+
+Theorem ping_argv c : wf_ping c = true ->
+  exists cmd, ping_cmd_of c = Ok cmd /\ sh_lex cmd = Words (spec_ping_argv c) false.
+Proof.
+  unfold wf_ping. intros W. apply andb_prop in W as [W Wa]. apply andb_prop in W as [Wt Wh].
+  exists (B "ipmitool" ++ lead (ping_toks c)). split.
+  - unfold ping_cmd_of, build_ping_cmd, ping_toks.
+    destruct (c_type c); try discriminate; f_equal; destruct (c_auth c); norm; reflexivity.
+  - rewrite lex_command; [| reflexivity | discriminate |].
+    + unfold ping_toks, spec_ping_argv. rewrite !vals_app, !redir_app.
+      destruct (c_auth c); reflexivity.
+    + unfold ping_toks. rewrite !forallb_app. cbn [forallb tok_ok L].
+      rewrite iftype_plain, Wh, dec_plain.
+      destruct (c_auth c) as [|u p|]; try reflexivity.
+      apply andb_prop in Wa as [Wu Wp]. cbn. now rewrite Wu, Wp.
+Qed.
+
+(* ---- the code before fix F19: the full statement is false ---- *)
+Definition witness_cfg : config :=
+  mkConfig Lan None (B "10.0.1.1") 623 4 (AuthPassword (B "admin") (B "$x")) [] 0.
+Definition witness_tgt : option target := Some (mkTarget (Some 32) None).
+Lemma legacy_refuted :
+  wf_config witness_cfg = true /\ wf_target witness_tgt = true /\
+  exists cmd, cmd_of_legacy witness_cfg witness_tgt 0 6 [1] = Ok cmd /\ sh_lex cmd = Expansion.
+Proof. split; [reflexivity|]. split; [reflexivity|]. eexists. split; vm_compute; reflexivity. Qed.
+(* ... and other witnesses: splitting, command substitution, lost backslash *)
+Definition legacy_lex (pw : list N) : outcome :=
+  match cmd_of_legacy (mkConfig Lan None (B "10.0.1.1") 623 4 (AuthPassword (B "admin") pw) [] 0)
+          witness_tgt 0 6 [1] with Ok cmd => sh_lex cmd | Err _ => Other end.
+Lemma legacy_more :
+  legacy_lex [96; 120; 96] = Substitution /\ legacy_lex (B "$(x)") = Substitution /\
+  legacy_lex [97; 34; 98] = Unterminated /\
+  (exists a, legacy_lex [97; 92; 92; 98] = Words a true /\ nth 12 a [] = [97; 92; 98]).
+Proof. repeat split; try (vm_compute; reflexivity). eexists. split; vm_compute; reflexivity. Qed.
